@@ -2,6 +2,8 @@ def classify(sig, what):
     parts = sig.split(' | ')
     target, kind, msg = parts[0], parts[1], parts[-1]
     body = ' | '.join(parts[2:-1])
+    if kind == 'name-refused':
+        return 'N2: a valid document whose names (' + body[5:] + ', placed in every name position) start with a digit, contain a backtick or contain non-ASCII letters makes generate ' + target + ' fail with a source-formatting error on its own output (' + msg + '): the name manglers produce an identifier starting with a digit / cut a multi-byte rune / leave the backtick inside a raw string. The property demands success for any name with a letter.'
     if 'nondeterministic outcome' in sig:
         return 'ND1: the generator output for this target is not a function of its input: the same document sometimes yields code that builds and sometimes code that does not (map-iteration order inside the generator, see C07); observed e.g. on two-hop $ref chains (m.P == nil on a non-pointer alias) and on cli imports.'
     if target == 'model' and 'poly>' in body:
@@ -22,6 +24,8 @@ def classify(sig, what):
         return 'N1: the spec name ' + body[5:] + ' (placed in every name position) collides with an identifier, a predeclared name or an imported package name used by the ' + target + ' templates (' + msg + '): the command exits 0 and the generated code does not compile. The name de-confliction tables (MangleVarName / reserved words / deconflictPkg) do not cover it.'
     if 'same-name-two-locations' in body or 'punctuation' in body or 'mangle-alike' in body:
         return 'P1: two spec names that are distinct in Swagger (same parameter name in two locations, names differing only by punctuation) mangle to one Go identifier (' + msg + ') in the ' + target + ' target: exits 0, does not compile (' + body + ').'
+    if body.startswith('security:') and 'differ-by-case' in body:
+        return 'P1: two security scheme names that are distinct in Swagger (key / Key) mangle to one Go identifier (KeyAuth field, ' + msg + ') in the ' + target + ' target: exits 0, does not compile.'
     if body.startswith('switch'):
         return 'S1: generate ' + target + ' with ' + body + ' exits 0 on the rich spec but the result does not compile (' + msg + ').'
     return 'G1: generate ' + target + ' exits 0 on ' + body + ' but the generated code does not compile (' + msg + ').'
